@@ -556,7 +556,11 @@ def o_integrand_semantics(spec, meth, dim, arg, seed, int_input=False):
                     want = (0.0, float(arg)) if meth == "marginal_cdf" else None
                 else:
                     want = (0.0, float("inf"))
-                if want is None or tuple(rg) != want:
+                if want is None:
+                    return ({"clause": "integrand-order", "method": meth},
+                            "%s(%r, %d): model variable %d (the marginal's own variable) is integrated over %r instead of being fixed to the "
+                            "evaluation point" % (meth, arg, dim, pos, tuple(rg)))
+                if tuple(rg) != want:
                     return ({"clause": "integrand-order", "method": meth},
                             "%s(%r%s): model variable %d is integrated over %r, expected %r" % (
                                 meth, arg, "" if meth == "cdf" else ", %d" % dim, pos, tuple(rg), want))
